@@ -346,20 +346,24 @@ func Run(c *engine.Ctx) {
 	{
 		base := gen.ListSpec{Nodes: abc, Edges: []gen.EdgeSpec{{From: "a", Type: sbom.Edge_contains, To: []string{"b"}}}, Roots: []string{"a"}}
 		muts := map[string]func(nl *sbom.NodeList){
-			"add-edge b->c":      func(nl *sbom.NodeList) { nl.AddEdge(&sbom.Edge{From: "b", Type: sbom.Edge_dependsOn, To: []string{"c"}}) },
+			"add-edge b->c": func(nl *sbom.NodeList) {
+				nl.AddEdge(&sbom.Edge{From: "b", Type: sbom.Edge_dependsOn, To: []string{"c"}})
+			},
 			"extend-target a->c": func(nl *sbom.NodeList) {
 				if len(nl.Edges) > 0 {
 					nl.Edges[0].To = append(nl.Edges[0].To, "c")
 				}
 			},
-			"remove-node b":      func(nl *sbom.NodeList) { nl.RemoveNodes([]string{"b"}) },
-			"add-root c":         func(nl *sbom.NodeList) { nl.RootElements = append(nl.RootElements, "c") },
+			"remove-node b": func(nl *sbom.NodeList) { nl.RemoveNodes([]string{"b"}) },
+			"add-root c":    func(nl *sbom.NodeList) { nl.RootElements = append(nl.RootElements, "c") },
 			"retarget": func(nl *sbom.NodeList) {
 				if len(nl.Edges) > 0 && len(nl.Edges[0].To) > 0 {
 					nl.Edges[0].To[0] = "c"
 				}
 			},
-			"add-node+edge":      func(nl *sbom.NodeList) { _ = nl.RelateNodeAtID(&sbom.Node{Id: "d", Name: "n-d"}, "b", sbom.Edge_contains) },
+			"add-node+edge": func(nl *sbom.NodeList) {
+				_ = nl.RelateNodeAtID(&sbom.Node{Id: "d", Name: "n-d"}, "b", sbom.Edge_contains)
+			},
 		}
 		var mn []string
 		for k := range muts {
